@@ -135,7 +135,7 @@ def build_schedule(po, events_in_order, accesses=(), all_traces=None, reach_only
     return sch
 
 
-def run_replay(files, test_name, timeout=240, extra_env=None):
+def run_replay(files, test_name, timeout=240, extra_env=None, extra_args=None):
     """files: {name: source}. Returns (rc, output, dict of VERIF-E3 key/values)"""
     keep = os.environ.get("VERIF_E3_KEEP")
     if keep:
@@ -143,7 +143,7 @@ def run_replay(files, test_name, timeout=240, extra_env=None):
         for n, t in files.items():
             with open(os.path.join(keep, n), "w") as f:
                 f.write(t)
-    rc, out = common.go_test_overlay(files, "^%s$" % test_name, timeout=timeout, extra_env=extra_env)
+    rc, out = common.go_test_overlay(files, "^%s$" % test_name, timeout=timeout, extra_env=extra_env, extra_args=extra_args)
     if keep:
         with open(os.path.join(keep, "output.txt"), "w") as f:
             f.write(out)
